@@ -37,7 +37,10 @@ impl OutputFormat for TundraDraw {
     fn to_bytes(&self, buf: &crate::Buffer, options: &SaveOptions) -> EngineResult<Vec<u8>> {
         let mut result = vec![TUNDRA_VER]; // version
         result.extend(TUNDRA_HEADER);
-        let mut attr = TextAttribute::from_u8(0, buf.ice_mode);
+        // colours in effect at this point of the file: a reader starts with black on black, whatever the
+        // palette of the buffer holds in entry 0
+        let mut file_fg = (0u8, 0u8, 0u8);
+        let mut file_bg = (0u8, 0u8, 0u8);
         let mut skip_pos = None;
         let mut colors = HashSet::new();
 
@@ -86,14 +89,19 @@ impl OutputFormat for TundraDraw {
                 // so they always get a foreground command carrying the colour of their own cell
                 let is_command_byte = (1..=6).contains(&ch);
 
+                let mut fg = cur_attr.get_foreground();
+                if cur_attr.is_bold() {
+                    fg += 8;
+                }
+                let fg_rgb = buf.palette.get_rgb(fg);
+                let bg_rgb = buf.palette.get_rgb(cur_attr.get_background());
+
                 let mut cmd = 0;
-                let write_foreground = is_command_byte
-                    || buf.palette.get_color(attr.get_foreground()).get_rgb() != buf.palette.get_color(cur_attr.get_foreground()).get_rgb()
-                    || attr.is_bold() != cur_attr.is_bold();
+                let write_foreground = is_command_byte || fg_rgb != file_fg;
                 if write_foreground {
                     cmd |= TUNDRA_COLOR_FOREGROUND;
                 }
-                let write_background = buf.palette.get_color(attr.get_background()).get_rgb() != buf.palette.get_color(cur_attr.get_background()).get_rgb();
+                let write_background = bg_rgb != file_bg;
                 if write_background {
                     cmd |= TUNDRA_COLOR_BACKGROUND;
                 }
@@ -102,27 +110,21 @@ impl OutputFormat for TundraDraw {
                     result.push(cmd);
                     result.push(ch as u8);
                     if write_foreground {
-                        let mut fg = cur_attr.get_foreground();
-                        if cur_attr.is_bold() {
-                            fg += 8;
-                        }
                         colors.insert(fg);
-                        let rgb = buf.palette.get_rgb(fg);
                         result.push(0);
-                        result.push(rgb.0);
-                        result.push(rgb.1);
-                        result.push(rgb.2);
+                        result.push(fg_rgb.0);
+                        result.push(fg_rgb.1);
+                        result.push(fg_rgb.2);
+                        file_fg = fg_rgb;
                     }
                     if write_background {
                         colors.insert(cur_attr.get_background());
-
-                        let rgb = buf.palette.get_rgb(cur_attr.get_background());
                         result.push(0);
-                        result.push(rgb.0);
-                        result.push(rgb.1);
-                        result.push(rgb.2);
+                        result.push(bg_rgb.0);
+                        result.push(bg_rgb.1);
+                        result.push(bg_rgb.2);
+                        file_bg = bg_rgb;
                     }
-                    attr = cur_attr;
                     continue;
                 }
                 result.push(ch as u8);
